@@ -329,6 +329,7 @@ def run(chk):
     e10.run_U(chk, ("yastn.krylov", "yastn.tensor._krylov"), floor1=5, floor2=1)
 
 MUTANTS = [
+    ("Krylov space clamped by stored size", "yastn/krylov/_krylov.py", "    ncv, ncv_max = max(1, ncv), 30  # Krylov space parameters; its true maximal dimension shows up as happy breakdown", "    ncv, ncv_max = max(1, ncv), min([30, v.size])", "X6"),
     ("Arnoldi: ket/bra swapped", "yastn/tensor/_krylov.py", "                H[(i, j)] = V[i].vdot(w)", "                H[(i, j)] = w.vdot(V[i])", "X1"),
     ("Lanczos: subtract previous with diagonal coefficient", "yastn/tensor/_krylov.py", "amplitudes=[1, -H[(j - 1, j)], -H[(j, j)]]", "amplitudes=[1, -H[(j, j)], -H[(j - 1, j)]]", "X1"),
     ("divide before breakdown test", "yastn/tensor/_krylov.py", "        if H[(j + 1, j)] < tol:\n            happy = True\n            H.pop((j + 1, j))\n            break\n        V.append(w / H[(j + 1, j)])",
